@@ -93,6 +93,8 @@ pub struct CaseOut {
     /// compound cells (AO21/AO22/OA21/… and AND3/OR3 families) in the children's own netlists, i.e. cells that
     /// already exist when the parent flattens the child and ties its inputs; (all compound, AO22 only)
     pub child_compound: (usize, usize),
+    /// construction-time counters of the case (see `workload::Case::counters`)
+    pub counters: Vec<(String, i64)>,
 }
 
 pub fn netlist_info(m: &GateModule) -> NetlistInfo {
@@ -258,7 +260,7 @@ pub fn run_case(seed: u64, i: u64, o: &Opts) -> CaseOut {
 }
 
 pub fn run_prepared(seed: u64, i: u64, case: Case, o: &Opts) -> CaseOut {
-    let mut out = CaseOut { i, kind: case.kind.clone(), status: String::new(), design: None, stim: None, rtl_varies: false, cfgs: vec![], rtl_engines_disagree: None, const_tied: case.const_tied, child_compound: (0, 0) };
+    let mut out = CaseOut { i, kind: case.kind.clone(), status: String::new(), design: None, stim: None, rtl_varies: false, cfgs: vec![], rtl_engines_disagree: None, const_tied: case.const_tied, child_compound: (0, 0), counters: case.counters.clone() };
     let d = case.design.clone();
     let md = default_metadata();
     let a = match analyze_one(&d.text, &md) {
